@@ -122,6 +122,7 @@ def compose(case):
 def run_impl(case):
     base = {k: v for k, v in case.items() if not k.startswith('impl')}
     out = ic.run_glom(base)
+    out.pop('_built', None)
     try:
         comp = compose(base)
     except Exception:
